@@ -14,8 +14,13 @@ import Ymq.Props.C13Log
 #print axioms Ymq.C13.fbase_new_classes
 #print axioms Ymq.C13.log_sum_bound
 #print axioms Ymq.C13.cofactor_spec
+#print axioms Ymq.C13.accumulator_hits_spec
+#print axioms Ymq.C13.class_loops_cover
+#print axioms Ymq.C13.accumulator_spec_small
 #print axioms Ymq.C13.accumulator_spec_partial
 #print axioms Ymq.C13.accumulator_overflow_iff
 #print axioms Ymq.C13.accumulator_overflow_witness
+#print axioms Ymq.C13.accumulator_no_overflow_small
 #print axioms Ymq.C13.accumulator_no_overflow_partial
 #print axioms Ymq.C13.smooths_threshold_spec
+#print axioms Ymq.C13.smooth_candidate_reported
